@@ -541,6 +541,7 @@ func (sk *SpaceKeeper) AvailableDiskSize() uint64 {
 	if err != nil {
 		return 0
 	}
+	verifDiskUsage(sk.dbDirs[0], info)
 	return info.Free
 }
 
@@ -558,6 +559,7 @@ func (sk *SpaceKeeper) IsCapacityAvailable(path string, capacityBytes uint64) er
 	if err != nil {
 		return err
 	}
+	verifDiskUsage(absPath, info)
 	freeBytes := info.Free
 
 	var wsiList []engine.WorkSpaceInfo
@@ -591,6 +593,7 @@ func checkOSDiskSizeByPath(path string, requiredBytes int) error {
 	if err != nil {
 		return err
 	}
+	verifDiskUsage(path, info)
 	if uint64(requiredBytes) >= info.Free {
 		return ErrOSDiskSizeNotEnough
 	}
